@@ -24,6 +24,7 @@ type world struct {
 	discrete bool // correct observers report one of two values per stream (so that a mode aggregate exists)
 	verbose  bool // Config.VerboseLogging (must not change any result)
 	alias    int  // when non-zero: every stream s also exists as the different stream s+alias (same low bits)
+	pred2    bool // the instance's predecessor is the second of two predecessors known to this process
 	zeroSid  int  // 0: stream id 0 is never observed; 1..3: it is, as a quote / decimal / timestamped stream
 	exact    bool // correct observers report exactly the base time and the clock moves by exactly one report interval (or a nanosecond off)
 }
@@ -31,7 +32,7 @@ type world struct {
 var formatsPool = []uint32{1, 2, 4, 42}
 
 func (w *world) cfgJ() J {
-	return J{"f": w.f, "version": S(w.version), "minInterval": S(w.interval), "hasPred": w.hasPred, "verbose": w.verbose}
+	return J{"f": w.f, "version": S(w.version), "minInterval": S(w.interval), "hasPred": w.hasPred, "verbose": w.verbose, "pred2": w.pred2 && w.hasPred}
 }
 
 func newWorld(g *G) *world {
@@ -60,6 +61,7 @@ func newWorld(g *G) *world {
 	}
 	w.verbose = g.R.Intn(4) == 0
 	w.discrete = g.R.Intn(3) == 0
+	w.pred2 = g.R.Intn(3) == 0
 	if g.R.Intn(3) == 0 {
 		w.zeroSid = 1 + g.R.Intn(3)
 	}
@@ -218,6 +220,17 @@ type updVote struct {
 
 var validToken = []byte{0xA7, 0x7E, 0x57}
 
+// validToken2: the attestation of the OTHER predecessor (worlds with pred2): there validToken is what a faulty
+// observer replays — genuine, verified elsewhere in this process, but not for this instance's predecessor
+var validToken2 = []byte{0xA7, 0x7E, 0x58}
+
+func (w *world) tok() []byte {
+	if w.pred2 {
+		return validToken2
+	}
+	return validToken
+}
+
 func (w *world) nearF(n int) int {
 	g := w.g
 	switch g.R.Intn(6) {
@@ -361,9 +374,12 @@ func (w *world) round(p votePlan, streams []int) (obs []any, honest []any) {
 		}
 		o["ts"] = S(ts)
 		if attV[i] {
-			o["attested"] = hexs(validToken)
+			o["attested"] = hexs(w.tok())
 		} else if attB[i] {
 			o["attested"] = hexs([]byte{0xBA, 0xD0, byte(g.R.Intn(4))})
+			if w.pred2 && g.R.Intn(2) == 0 {
+				o["attested"] = hexs(validToken) // the other predecessor's genuine attestation, replayed
+			}
 		}
 		rm := []any{}
 		seenRm := map[int]bool{}
@@ -495,7 +511,7 @@ func (w *world) attestations() []any {
 	if g.R.Intn(5) == 0 {
 		va = []any{} // the predecessor never had a channel: nil map in the decoded retirement report
 	}
-	return []any{J{"bytes": hexs(validToken), "rr": J{"version": S(w.version), "va": va}}}
+	return []any{J{"bytes": hexs(w.tok()), "rr": J{"version": S(w.version), "va": va}}}
 }
 
 // genOutcomeCases: single-round llo.outcome ops with hand-built previous outcomes
